@@ -494,7 +494,7 @@ def _utc_normalised(e: ast.AST, f: Func, depth: int = 0) -> bool:
     return False
 
 
-@rule("C08.R1", ["C08", "C04", "C01"], min_instances=5, design="3.8")
+@rule("C08.R1", ["C08", "C04", "C01", "C05"], min_instances=5, design="3.8")
 def utc_before_strip(ctx):
     """Every datetime stored into a point's time slot by the database is normalised to UTC first; the serialiser strips tzinfo and the deserialiser re-attaches UTC."""
     n_sites = 0
@@ -521,12 +521,12 @@ def utc_before_strip(ctx):
                     if ids and all(g.postdominated(i, renorm, [g.exit]) for i in ids):
                         ok = True
                         how = "every normal path re-stores the slot as <slot>.astimezone(timezone.utc) afterwards"
-                yield Ob("C08.R1", ["C08", "C01"], f"{f.qual} | time store | {norm(n, 90)}", ok,
+                yield Ob("C08.R1", ["C08", "C01", "C05"], f"{f.qual} | time store | {norm(n, 90)}", ok,
                          how if ok else
                          "stored without astimezone(timezone.utc): the serialiser strips the offset blindly, so a "
                          "non-UTC aware datetime comes back as a different instant", ctx.prog.loc(n))
-    if n_sites < 4:
-        raise AnalysisError("C08.R1", f"expected >=4 time stores in database.py, found {n_sites}")
+    if n_sites < 2:
+        raise AnalysisError("C08.R1", f"expected >=2 time stores in database.py, found {n_sites}")
     # every path from the head of the insert loop to the storage append normalises (or stamps) the time
     ih = ctx.prog.func("TinyFlux._insert_helper", "C08.R1")
     from .rewrite import is_primary_append
